@@ -164,6 +164,7 @@ def sample_config(rng, family=None, families=None, n_range=(2, 14), d_range=(1, 
             if not any(mask):
                 mask[rng.randrange(d)] = True
             p["feature_mask"] = mask
+            mask_dtype = weighted(rng, [("bool", 6), ("int64", 2), ("uint8", 1)])
         # keep the number of leaves small: at most 6 used features, and (n_cuts+1)**used <= 64 with n_cuts >= 1
         mask = p.get("feature_mask", [True] * d)
         if sum(mask) > 6:
@@ -197,6 +198,8 @@ def sample_config(rng, family=None, families=None, n_range=(2, 14), d_range=(1, 
         if used <= 2:
             p["n_cuts"] = choice(rng, [4, 5])
     cfg = dict(family=family, params=p, n=n, d=d, data_seed=rng.randrange(2 ** 31), data_scale=choice(rng, list(scales)))
+    if fam.get("douglas") and p.get("feature_mask") is not None and locals().get("mask_dtype", "bool") != "bool":
+        cfg["mask_dtype"] = mask_dtype
     if big:
         cfg["big"] = True
     if rng.random() < 0.08 and n >= 2:
@@ -321,7 +324,8 @@ def build_params(config, log=None, kernel_raise_at=None):
         if isinstance(p.get(key), str) and p[key].startswith("callable:"):
             p[key] = SimKernel(p[key].split(":", 1)[1], log, kernel_raise_at)
     if p.get("feature_mask") is not None:
-        p["feature_mask"] = np.array(p["feature_mask"], dtype=bool)
+        # a 0/1 mask may be boolean or integer (the estimator's validation accepts any ndarray)
+        p["feature_mask"] = np.array(p["feature_mask"], dtype=bool).astype(config.get("mask_dtype", "bool"))
     if p.get("groups") is not None:
         p["groups"] = [list(g) for g in p["groups"]]
     return p
